@@ -173,9 +173,9 @@ theorem wfList_append_one (xs : List PyVal) (x : PyVal) (h : wfList xs = true) (
     simp only [List.cons_append, wfList, Bool.and_eq_true]
     exact ⟨h.1, ih h.2⟩
 
-theorem choiceUpdate_inv (n : Nat) (c c' : Choice) (p : PyVal) (hinv : choiceInv n c)
-    (h : choiceUpdate c p = .ok c') : choiceInv n c' ∧ c'.name = c.name ∧ c'.acc = c.acc := by
-  unfold choiceUpdate at h
+theorem choiceApply_inv (n : Nat) (c c' : Choice) (p : PyVal) (hinv : choiceInv n c)
+    (h : choiceApply c p = .ok c') : choiceInv n c' ∧ c'.name = c.name ∧ c'.acc = c.acc := by
+  unfold choiceApply at h
   cases hi : choiceIndex p with
   | none => rw [hi] at h; cases h
   | some i =>
@@ -198,6 +198,10 @@ theorem choiceUpdate_inv (n : Nat) (c c' : Choice) (p : PyVal) (hinv : choiceInv
         · exact hw
     · cases h
 
+theorem choiceUpdate_inv (n : Nat) (c c' : Choice) (p : PyVal) (hinv : choiceInv n c)
+    (h : choiceUpdate c p = .ok c') : choiceInv n c' ∧ c'.name = c.name ∧ c'.acc = c.acc :=
+  choiceApply_inv n c c' (itemOf p) hinv h
+
 theorem runChoice_inv (n : Nat) : ∀ (ops : List PyVal) (c c' : Choice), choiceInv n c →
     runChoice c ops = .ok c' → choiceInv n c' ∧ c'.name = c.name ∧ c'.acc = c.acc
   | [], c, c', hinv, h => by
@@ -211,6 +215,51 @@ theorem runChoice_inv (n : Nat) : ∀ (ops : List PyVal) (c c' : Choice), choice
       obtain ⟨h1, hn, ha⟩ := choiceUpdate_inv n c c1 p hinv hu
       obtain ⟨h2, hn2, ha2⟩ := runChoice_inv n ps c1 c' h1 h
       exact ⟨h2, hn2.trans hn, ha2.trans ha⟩
+
+/-! the values a CHOICE result accumulates are Python scalars (`update` converts on entry) -/
+
+theorem norm_itemOf_index (p : PyVal) (i : Int) (h : choiceIndex (itemOf p) = some i) :
+    norm (itemOf p) = itemOf p := by
+  cases p with
+  | ndarray dt sh d =>
+    cases sh with
+    | nil => simp only [itemOf]; exact norm_norm d
+    | cons a r => simp [itemOf, choiceIndex] at h
+  | _ => first | rfl | (simp [itemOf, choiceIndex] at h)
+
+theorem normList_append_one (xs : List PyVal) (x : PyVal) (h : normList xs = xs) (hx : norm x = x) :
+    normList (xs ++ [x]) = xs ++ [x] := by
+  induction xs with
+  | nil => simp [normList, hx]
+  | cons y ys ih =>
+    simp only [normList, List.cons.injEq] at h
+    simp only [List.cons_append, normList, h.1, ih h.2]
+
+theorem choiceUpdate_plain (c c' : Choice) (p : PyVal) (hp : normList c.valueList = c.valueList)
+    (h : choiceUpdate c p = .ok c') : normList c'.valueList = c'.valueList := by
+  unfold choiceUpdate choiceApply at h
+  cases hi : choiceIndex (itemOf p) with
+  | none => rw [hi] at h; cases h
+  | some i =>
+    rw [hi] at h
+    simp only at h
+    split at h
+    · injection h with h
+      subst h
+      show normList (if c.acc = true then c.valueList ++ [itemOf p] else c.valueList) = _
+      split
+      · exact normList_append_one _ _ hp (norm_itemOf_index p i hi)
+      · exact hp
+    · cases h
+
+theorem runChoice_plain : ∀ (ops : List PyVal) (c c' : Choice), normList c.valueList = c.valueList →
+    runChoice c ops = .ok c' → normList c'.valueList = c'.valueList
+  | [], c, c', hp, h => by simp only [runChoice] at h; injection h with h; subst h; exact hp
+  | p :: ps, c, c', hp, h => by
+    simp only [runChoice] at h
+    cases hu : choiceUpdate c p with
+    | error e => rw [hu] at h; cases h
+    | ok c1 => rw [hu] at h; exact runChoice_plain ps c1 c' (choiceUpdate_plain c c1 p hp hu) h
 
 theorem choiceInit_inv (name : String) (acc : Bool) (n : Nat) : choiceInv n (choiceInit name acc n) := by
   refine ⟨by simp [choiceInit], ?_, ?_, rfl⟩ <;> simp [choiceInit, natSum_replicate_zero]
